@@ -704,30 +704,6 @@ func init() {
 					}
 				}
 			})
-			w.Phase("css: theme x overrides, no dark", func() {
-				for _, t := range ids {
-					for _, ov := range sets {
-						w.Eval("css", c31In{Kind: "css", Theme: t, Ov: ov}.String())
-					}
-				}
-			})
-			// quick: dark override sets {none, all} ∪ singles paired with the same single light code; thorough: full product
-			for _, t := range ids {
-				t := t
-				w.Phase(fmt.Sprintf("css: theme %d x dark x overrides x dark overrides", t), func() {
-					for _, dk := range ids {
-						dk := dk
-						for _, ov := range sets {
-							for _, dov := range sets {
-								if !w.Thorough() && !(ov == "none" || ov == "all" || dov == "none" || dov == "all" || ov == dov) {
-									continue
-								}
-								w.Eval("css", c31In{Kind: "css", Theme: t, Dark: &dk, Ov: ov, Dov: dov}.String())
-							}
-						}
-					}
-				})
-			}
 			w.Phase("render: shapes diagram, theme x overrides, no dark", func() {
 				for _, t := range ids {
 					for _, ov := range sets {
@@ -760,6 +736,30 @@ func init() {
 					}
 				}
 			})
+			w.Phase("css: theme x overrides, no dark", func() {
+				for _, t := range ids {
+					for _, ov := range sets {
+						w.Eval("css", c31In{Kind: "css", Theme: t, Ov: ov}.String())
+					}
+				}
+			})
+			// quick: (light, dark) override sets in {none, all}² plus the same single code on both sides; thorough: full product
+			for _, t := range ids {
+				t := t
+				w.Phase(fmt.Sprintf("css: theme %d x dark x overrides x dark overrides", t), func() {
+					for _, dk := range ids {
+						dk := dk
+						for _, ov := range sets {
+							for _, dov := range sets {
+								if !w.Thorough() && !((ov == "none" || ov == "all") && (dov == "none" || dov == "all") || ov == dov) {
+									continue
+								}
+								w.Eval("css", c31In{Kind: "css", Theme: t, Dark: &dk, Ov: ov, Dov: dov}.String())
+							}
+						}
+					}
+				})
+			}
 			if w.Thorough() {
 				w.Phase("render: sketch mode", func() {
 					for _, t := range ids {
